@@ -61,6 +61,18 @@ pub struct Names {
     /// per worker: the current API call went through the node list (first use of the crate on
     /// this thread, or the call that wraps the transaction counter): lock-free only
     list_path: HashMap<usize, bool>,
+    /// node index → worker that owns it (claimed or allocated it and has not sent it to cooldown)
+    owner: HashMap<usize, usize>,
+    /// workers that are using the crate: from their first atomic access to the end of their exit
+    alive: std::collections::HashSet<usize>,
+    exiting: std::collections::HashSet<usize>,
+    /// peak number of such workers
+    peak_owners: usize,
+    /// per worker: its current Node::get walk saw a writer inside a node in cooldown
+    saw_writer: HashMap<usize, bool>,
+    /// allocations made by a walk that saw a writer inside a node in cooldown
+    lockstep_allocs: usize,
+    allocs: usize,
 }
 
 pub static NAMES: Mutex<Option<Names>> = Mutex::new(None);
@@ -227,6 +239,43 @@ fn after_hook(e: &Event, val: usize, ok: bool) {
         }
         let k = classify(n, e.addr);
         let loc = loc_name(k, e.addr);
+        // node ownership and churn bookkeeping (C11)
+        if n.alive.insert(w) {
+            n.peak_owners = n.peak_owners.max(n.alive.len());
+        }
+        if n.exiting.contains(&w) && site.ends_with("as Drop>::drop#0") {
+            n.alive.remove(&w);
+        }
+        if site.ends_with("Node::traverse#0") && !site.contains("pay_all") {
+            n.saw_writer.insert(w, false);
+        }
+        if let Kind::F(j, Field::Writers) = k {
+            if site.ends_with("Node::check_cooldown#1") && val > 0 {
+                n.saw_writer.insert(w, true);
+            }
+        }
+        if let Kind::F(j, Field::InUse) = k {
+            if site.ends_with("Node::get#0") && ok {
+                if let Some(o) = n.owner.get(&j) {
+                    crate::varc::violation(format!("ownership: node n{} claimed by t{} while owned by t{}", j, w, o));
+                }
+                n.owner.insert(j, w);
+            }
+            if site.ends_with("Node::start_cooldown#0") {
+                if n.owner.get(&j) != Some(&w) {
+                    crate::varc::violation(format!("ownership: t{} sends node n{} to cooldown but does not own it", w, j));
+                }
+                n.owner.remove(&j);
+            }
+        }
+        if k == Kind::Head && matches!(e.op, AOp::CompareExchange | AOp::CompareExchangeWeak) && ok {
+            let j = n.nodes.iter().position(|a| *a == e.arg2).unwrap_or(usize::MAX);
+            n.owner.insert(j, w);
+            n.allocs += 1;
+            if n.saw_writer.get(&w).copied().unwrap_or(false) {
+                n.lockstep_allocs += 1;
+            }
+        }
         // history of cell writes, for the linearizability oracles
         if let Kind::Cell(c) = k {
             let wrote = match e.op {
@@ -793,6 +842,13 @@ where
         n.hist.clear();
         n.last_write.clear();
         n.list_path.clear();
+        n.owner.clear();
+        n.alive.clear();
+        n.exiting.clear();
+        n.peak_owners = 0;
+        n.saw_writer.clear();
+        n.lockstep_allocs = 0;
+        n.allocs = 0;
         n.head = verif::list_head_addr();
     });
     verif::set_hooks(Some(before_hook), Some(after_hook));
@@ -845,6 +901,12 @@ where
                     }
                     point(Pending { site: "exit".into(), weak_cas: false, api: String::new() });
                     emit("exit".to_string());
+                    names(|n| {
+                        n.exiting.insert(w);
+                        if !n.owner.values().any(|o| *o == w) {
+                            n.alive.remove(&w); // no node to give back: nothing more happens
+                        }
+                    });
                     // thread-local destructors (the node goes to cooldown) run after this returns
                 })
                 .unwrap(),
@@ -921,6 +983,24 @@ where
     };
     verif::set_hooks(None, None);
 
+    // Churn (C11): nodes allocated vs the peak number of threads that held one at the same time
+    {
+        let (allocs, peak, lockstep) = names(|n| (n.allocs, n.peak_owners, n.lockstep_allocs));
+        let mut st = lock(&sh.stats);
+        *st.entry("max_nodes".into()).or_insert(0) = (*st.get("max_nodes").unwrap_or(&0)).max(allocs as u64);
+        *st.entry("max_peak_owners".into()).or_insert(0) = (*st.get("max_peak_owners").unwrap_or(&0)).max(peak as u64);
+        drop(st);
+        if allocs > peak {
+            if lockstep > 0 {
+                violation(format!(
+                    "churn-lockstep: {} nodes allocated with at most {} threads using the crate at a time; {} allocation(s) by a Node::get that saw a writer inside a node in cooldown",
+                    allocs, peak, lockstep
+                ));
+            } else {
+                violation(format!("churn: {} nodes allocated with at most {} threads using the crate at a time", allocs, peak));
+            }
+        }
+    }
     // Quiescence: release every register on a fresh thread (outside the scheduler), then nothing
     // may be alive and no slot may be occupied.
     varc::SCHED_POINTS.store(false, SeqCst);
